@@ -35,6 +35,79 @@ def _owner(node):
     return p
 
 
+PRED = "_is_public_non_funtion_attr"
+
+
+def members_source(scope_fns, expr, depth=0):
+    """Does `expr` (evaluated in the scope of tpm_bitfield's decorator) enumerate the (name, value) pairs of the public
+    non-routine members of the decorated class?  -> "filtered" (already restricted by the predicate), "all" (plain
+    inspect.getmembers(cls): the loop has to apply the predicate itself) or None.  Followed through `.items()`, dict / sorted /
+    list / tuple wrappers and single-definition locals of the enclosing functions."""
+    if depth > 8 or expr is None:
+        return None
+    if isinstance(expr, ast.Call) and isinstance(expr.func, ast.Attribute) and expr.func.attr == "items" and not expr.args:
+        return members_source(scope_fns, expr.func.value, depth + 1)
+    if isinstance(expr, ast.Call) and call_name(expr) in ("dict", "sorted", "list", "tuple") and expr.args:
+        return members_source(scope_fns, expr.args[0], depth + 1)
+    if isinstance(expr, ast.Call) and norm(expr) in ("inspect.getmembers(cls)", "inspect.getmembers(type(self))"):
+        return "all"
+    if isinstance(expr, (ast.GeneratorExp, ast.ListComp, ast.DictComp)) and len(expr.generators) == 1:
+        g = expr.generators[0]
+        if isinstance(g.target, ast.Tuple) and len(g.target.elts) == 2 and all(isinstance(e, ast.Name) for e in g.target.elts):
+            n, v = (e.id for e in g.target.elts)
+            elt = (norm(expr.key), norm(expr.value)) if isinstance(expr, ast.DictComp) else \
+                tuple(norm(e) for e in expr.elt.elts) if isinstance(expr.elt, ast.Tuple) and len(expr.elt.elts) == 2 else None
+            inner = members_source(scope_fns, g.iter, depth + 1)
+            if elt == (n, v) and inner == "all" and [norm(c) for c in g.ifs] == [f"{PRED}({n}, {v})"]:
+                return "filtered"
+            if elt == (n, v) and inner == "filtered" and not g.ifs:
+                return "filtered"
+        return None
+    if isinstance(expr, ast.Name):
+        for fn in scope_fns:
+            defs = [a for a in ast.walk(fn) if isinstance(a, ast.Assign) and len(a.targets) == 1 and isinstance(a.targets[0], ast.Name)
+                    and a.targets[0].id == expr.id]
+            defs = list({id(x): x for x in defs}.values())
+            if len(defs) == 1:
+                return members_source(scope_fns, defs[0].value, depth + 1)
+            if defs:
+                return None
+    return None
+
+
+def bitfield_roles(vals):
+    """the parts of tpm_bitfield by role: the decorator, the one place where an accessor object is installed for each mask
+    (`setattr(cls, name, K(name, mask))` in a loop over the members), the accessor class K with its __init__ / __get__"""
+    dec = vals.functions().get("tpm_bitfield.decorator")
+    if dec is None:
+        raise AnalysisError("model guard G5: tpm_bitfield.decorator not found")
+    classes = {c.name: c for c in ast.walk(vals.tree) if isinstance(c, ast.ClassDef)}
+    sets = []
+    for lp in [n for n in ast.walk(dec) if isinstance(n, ast.For) and _owner(n) is dec]:
+        if not (isinstance(lp.target, ast.Tuple) and len(lp.target.elts) == 2 and all(isinstance(e, ast.Name) for e in lp.target.elts)):
+            continue
+        ln, lv = (e.id for e in lp.target.elts)
+        for c in ast.walk(lp):
+            if isinstance(c, ast.Call) and call_name(c) == "setattr" and len(c.args) == 3 and norm(c.args[0]) == "cls" \
+                    and norm(c.args[1]) == ln and isinstance(c.args[2], ast.Call) and call_name(c.args[2]) in classes:
+                k = c.args[2]
+                kw = {x.arg: norm(x.value) for x in k.keywords}
+                if kw == {"name": ln, "mask": lv} or [norm(x) for x in k.args] == [ln, lv]:
+                    sets.append((lp, c, classes[call_name(k)], ln, lv))
+    if len(sets) != 1:
+        raise AnalysisError("model guard G5: tpm_bitfield no longer installs one accessor(name, mask) for each public attribute")
+    lp, call, kcls, ln, lv = sets[0]
+    src = members_source([dec], lp.iter)
+    guard = len(find(lp, f"{PRED}({ln}, {lv})")) == 1
+    if not (src == "filtered" or (src == "all" and guard)):
+        raise AnalysisError("model guard G5: tpm_bitfield member loop not recognised (the accessors must be installed for exactly the "
+                            "public non-routine attributes)")
+    meth = {m.name: m for m in kcls.body if isinstance(m, ast.FunctionDef)}
+    if "__get__" not in meth:
+        raise AnalysisError("model guard G5: the accessor class of tpm_bitfield has no __get__")
+    return dict(dec=dec, loop=lp, install=call, accessor=kcls, init=meth.get("__init__"), get=meth["__get__"])
+
+
 def check(run, project, L, rule="G"):
     vals = project.module(VALUES)
     # ---- G1 member discovery predicate: public and not routine
@@ -149,14 +222,7 @@ def check(run, project, L, rule="G"):
     run.ob(rule, True, "G4 by_value = first member (getmembers order) containing/equal to the value")
 
     # ---- G5 tpm_bitfield: masks are the public non-routine attributes, Bit.__get__ masks the value
-    f = _fn(vals, "tpm_bitfield.decorator")
-    loops = [n for n in ast.walk(f) if isinstance(n, ast.For) and _owner(n) is f]
-    if len(loops) != 1 or norm(loops[0].iter) != "inspect.getmembers(cls)":
-        raise AnalysisError("model guard G5: tpm_bitfield member loop not recognised")
-    ln, lv = (e.id for e in loops[0].target.elts)
-    sets = find(loops[0], f"setattr(cls, {ln}, Bit(name={ln}, mask={lv}))")
-    if len(sets) != 1 or len(find(loops[0], f"_is_public_non_funtion_attr({ln}, {lv})")) != 1:
-        raise AnalysisError("model guard G5: tpm_bitfield no longer installs Bit(name, mask) for each public attribute")
+    bitfield_roles(vals)
     run.ob(rule, True, "G5 bit-field masks = public non-routine attributes")
 
     # ---- G6 ValidValues membership: get() is not None; get returns member/int
